@@ -137,6 +137,11 @@ def run(args) -> int:
         rng.shuffle(hs)
         fixed = [[['pred', 0, mlib.F1, [mlib.c(0)], 'T'], ['pred', 0, [1, 1], [mlib.c(1)], L['values'][-2]]],
                  [['atomic', 0, 0, 'T']]]
+        # "sorted": the package's order of constants is (subscript, index): a, b, c, d, a1, ... - constants with
+        # subscripts (numbers >= 4), set out of order
+        fixed += [[['pred', 0, mlib.F1, [mlib.c(k)], 'T'] for k in (5, 1, 4, 0, 2)],
+                  [['pred', 0, mlib.G2, [mlib.c(4), mlib.c(1)], 'T'], ['pred', 0, mlib.G2, [mlib.c(1), mlib.c(4)], 'T'],
+                   ['pred', 0, mlib.G2, [mlib.c(0), mlib.c(5)], 'T'], ['pred', 0, mlib.G2, [mlib.c(3), mlib.c(0)], 'T']]]
         if L['modal']:
             # "deterministic and sorted": successors added out of order, with world numbers beyond the range in
             # which CPython's small-int sets happen to iterate in numeric order
